@@ -3,7 +3,7 @@ package main
 func init() {
 	register(prop{
 		ID: "C13", Pkg: "c13",
-		Rule:        "rapid draws (side, interval, threshold in {-1,0,1,2,3,5}, pattern of <=30 ping outcomes: answered after d<I/2, answered late, never answered, error answer, write rejected, method-not-found, optional explicit Close); scripted peer under virtual time; oracle = reference failure detector giving the exact virtual instant of termination. Non-trivial = a recovery below the threshold or a threshold >=2 reached; distinct by (side, interval, threshold, outcome string).",
+		Rule:        "TestC13_HTTP: a keep-alive client session over the streamable HTTP client transport against a scripted endpoint that answers each ping at once, after a delay below I/2, with headers at once and the body after the ping timed out, or never, in JSON or SSE framing; same reference detector; a surviving session must still serve a manual ping. TestC13_KeepAlive: rapid draws (side, interval, threshold in {-1,0,1,2,3,5}, pattern of <=30 ping outcomes: answered after d<I/2, answered late, never answered, error answer, write rejected, method-not-found, optional explicit Close); scripted peer under virtual time; oracle = reference failure detector giving the exact virtual instant of termination. Non-trivial = a recovery below the threshold or a threshold >=2 reached; distinct by (side, interval, threshold, outcome string).",
 		Assumptions: []string{"virtual clock (testing/synctest); answers exactly at I/2 are not generated (two timers at one instant)", "peer is scripted (memio.ScriptConn)"},
 		LevelText:   "Generated ping-outcome patterns against a reference failure detector with exact virtual-time equality for the closing instant, plus no-ping-after-close and clean bubble exit (no timer/goroutine left).",
 		LevelNote:   "Trusts the reference detector in harness/c13 and synctest's clock.",
@@ -11,6 +11,7 @@ func init() {
 		DesignRef:   "DESIGN.md section 3, C13",
 		Runs: []run{
 			{Test: "TestC13_KeepAlive", Quick: 2500, Thorough: 120000},
+			{Test: "TestC13_HTTP", Quick: 1500, Thorough: 60000},
 		},
 	})
 }
